@@ -250,7 +250,7 @@ NOT_COVERED = {
     'C03': ['as_raw_sourcemap field plumbing and the serde skip_serializing_if attributes', 'index-map documents (sections array): bounded only'],
     'C07': ['document plumbing (as_raw_sourcemap writes the key only when a range token exists; decode_regular hands the strings to the loop): bounded stand-in rmi_roundtrip; the token-level round trip with flags is proved (lemma_document_roundtrip_with_ranges)'],
     'C11': ['an independent syntactic characterisation of canonical texts (canonical is defined as the image of the reference encoder)'],
-    'C12': ['the JSON layer and the base64 reader themselves (uninterpreted functions of the bytes; their chunking independence is assumed): bounded stand-in header runs the real ones', 'the typed wrappers SourceMap::from_reader / from_slice etc. (match on the decoded kind)'],
+    'C12': ['the JSON layer and the base64 reader themselves (uninterpreted functions of the bytes; their chunking independence is assumed): bounded stand-in header runs the real ones', 'SourceView-level and writer-side entry points (to_writer, to_data_url)'],
     'C13': ['"serialisation writes raw names plus root" (as_raw_sourcemap)'],
     'C04': ['rewrite / flatten as token producers are covered through into_sourcemap / SourceMap::new (proved); adjust_mappings through its own clause ens_result_ordered_by_generated_position'],
 }
